@@ -56,13 +56,19 @@ package tree
 //
 // A word is true / false (booleans), a decimal literal, optionally negative (a number), or a string.
 //
-//@ pure func decimalLiteral(w string) bool { return matches(w, "-?[0-9]+(\\.[0-9]+)?") }
+// decimalLiteral(w) is defined in /verif/spec/external_std.spec over the characters of the word: an optional '-', one or more
+// digits, and then either the end of the word or a '.' followed by one or more digits (the language -?[0-9]+(\\.[0-9]+)?).
 //
-// The scanner that recognises decimal literals is a loop over the runes of the word against a regular language:
-// trusted, with the exhaustive bounded stand-in B-word (/verif/bounded).
+// The scanner: digits counts the digits since the sign or the point, points the points seen (at most one, at pp).
 //@ func isDecimalLiteral(text string) (res bool)
-//@   trusted
-//@   ensures res == decimalLiteral(text)
+//@   ghostlocal pp int
+//@   ensures "recognises-decimal-literals": res == decimalLiteral(text)
+//@   loop 0: invariant "scan": 0 <= rangecount && rangecount <= runeLen(text) && (rangepos == 0) == (rangecount == 0) &&
+//@           0 <= digits && (points == 0 || points == 1) &&
+//@           (points == 0 ==> digits == (rangecount == 0 ? 0 : rangecount - signLen(text)) && digitsIn(text, signLen(text), rangecount)) &&
+//@           (points == 1 ==> signLen(text) < pp && pp < rangecount && runeAt(text, pp) == 46 && digitsIn(text, signLen(text), pp) &&
+//@                            digits == rangecount - pp - 1 && digitsIn(text, pp + 1, rangecount))
+//@   ghost loop 0 { pp = (points == 0 ? rangecount : pp) }
 //
 //@ func valueFromCommandText(commandText string) (v *variable.Value)
 //@   unreachable "return variable.NewString(commandText)"   // the last fallback: every decimal literal parses
